@@ -1,7 +1,7 @@
 #!/bin/sh
 # usage: run_all.sh [quick|thorough] [props...]  -- every registered check (and the extras) against /repo, one summary line each
 tier=${1:-quick}; [ $# -gt 0 ] && shift
-props=${*:-C01 C02 C03 C04 C05 C06 C07 C08 C09 C10 C11 C12 C13 C14 C15 C16 C17 C18 C19 C20 X01 X02 X03 X04 X05}
+props=${*:-C01 C02 C03 C04 C05 C06 C07 C08 C09 C10 C11 C12 C13 C14 C15 C16 C17 C18 C19 C20 X01 X02 X03 X04 X05 X06}
 cd "$(dirname "$0")/.." || exit 2
 rc=0
 for p in $props; do
